@@ -35,6 +35,8 @@ enum Step {
 	Call { error: bool },
 	Batch(usize),
 	Subscribe(usize, SubAnswer),
+	/// the application gives up the subscribe call (drops its future) before the server's accept arrives
+	SubscribeAbandoned,
 	Unsubscribe(usize),
 	Drop(usize),
 	ServerClose { slot: usize, in_array: bool },
@@ -251,6 +253,25 @@ async fn run_spec(spec: &Spec) -> Out {
 					other => bad!("subscribe-not-completed/any", "slot {slot}: {other:?}"),
 				}
 			}
+			Step::SubscribeAbandoned => {
+				let c = w.client.clone();
+				let t = tokio::spawn(async move { c.subscribe::<Value, _>("sub", rpc_params!["abandoned"], "unsub").await.map(|_| ()) });
+				settle().await;
+				t.abort();
+				settle().await;
+				for m in w.drain(&mut out) {
+					if let WireMsg::Single(q) = m {
+						if q.method == "sub" {
+							w.next_sub += 1;
+							let text = ok_response(q.id.as_ref().unwrap_or(&Value::Null), json!(format!("abandoned-{}", w.next_sub)));
+							out.history.push(format!("application dropped the subscribe call; server -> {text}"));
+							w.srv.push_text(text);
+						}
+					}
+				}
+				out.subs_accepted += 1;
+				out.subs_ended += 1;
+			}
 			Step::Unsubscribe(slot) => {
 				if let Some(h) = w.handles[*slot].take() {
 					out.history.push(format!("consumer unsubscribes slot {slot}"));
@@ -418,11 +439,89 @@ async fn run_spec(spec: &Spec) -> Out {
 	out
 }
 
+/// Directed scenario: a stream is dropped while the request queue is full (the drop's message is lost); after a further
+/// notification the client must unsubscribe, and after the acknowledgement its tables must be empty.
+async fn full_queue_drop_case(seed: u64, cycles: usize) -> (Vec<(String, String)>, [usize; 4], usize) {
+	let mut violations = Vec::new();
+	let mut r = Rng::new(seed);
+	let (client, mut srv) = jrv::clientsim::client(ClientCfg { sub_buffer: BUFFER, max_concurrent_requests: 1, string_ids: r.bool(), ..Default::default() });
+	let mut unsubs = 0usize;
+	for cyc in 0..cycles {
+		let c = client.clone();
+		let t = tokio::spawn(async move { c.subscribe::<Value, _>("sub", rpc_params!["s"], "unsub").await });
+		settle().await;
+		let sub_id = json!(format!("fq-{cyc}"));
+		for m in srv.drain_out() {
+			if let ClientOut::Msg { text, .. } = m {
+				if let WireMsg::Single(q) = parse_wire(&text) {
+					srv.push_text(ok_response(q.id.as_ref().unwrap_or(&Value::Null), sub_id.clone()));
+				}
+			}
+		}
+		let Ok(Ok(Ok(h))) = tokio::time::timeout(Duration::from_secs(30), t).await else {
+			violations.push(("subscribe-failed/accepted".into(), "setup of the full-queue scenario".into()));
+			break;
+		};
+		let gate = std::sync::Arc::new(tokio::sync::Notify::new());
+		*srv.ctl.send_gate.lock().unwrap() = Some(gate.clone());
+		let mut callers = Vec::new();
+		for i in 0..2 + r.usize(2) {
+			let c = client.clone();
+			callers.push(tokio::spawn(async move { c.request::<Value, _>("call", rpc_params![i]).await.map(|_| ()).map_err(|e| err_kind(&e)) }));
+			settle().await;
+		}
+		drop(h);
+		settle().await;
+		*srv.ctl.send_gate.lock().unwrap() = None;
+		for _ in 0..8 {
+			gate.notify_waiters();
+			gate.notify_one();
+			settle().await;
+		}
+		let mut pump = |srv: &mut ServerSide, unsubs: &mut usize| {
+			for m in srv.drain_out() {
+				if let ClientOut::Msg { text, .. } = m {
+					if let WireMsg::Single(q) = parse_wire(&text) {
+						if q.method == "unsub" {
+							*unsubs += 1;
+						}
+						if let Some(id) = &q.id {
+							srv.push_text(ok_response(id, json!(true)));
+						}
+					}
+				}
+			}
+		};
+		pump(&mut srv, &mut unsubs);
+		settle().await;
+		srv.push_text(sub_notif("m", &sub_id, json!("tick")));
+		for _ in 0..3 {
+			settle().await;
+			pump(&mut srv, &mut unsubs);
+		}
+		for t in callers {
+			if !matches!(tokio::time::timeout(Duration::from_secs(30), t).await, Ok(Ok(Ok(())))) {
+				violations.push(("call-not-completed/full-queue-scenario".into(), "a call queued behind the blocked transport did not complete".into()));
+			}
+		}
+		settle().await;
+	}
+	let sizes = client.verif_table_sizes();
+	if sizes != [0, 0, 0, 0] && violations.is_empty() {
+		violations.push((
+			"tables-not-empty-when-idle/drop-with-full-queue".into(),
+			format!("{cycles} cycle(s) of subscribe / drop with a full request queue / further notification / acknowledgement: the tables hold {sizes:?} ({unsubs} unsubscribe requests were written)"),
+		));
+	}
+	(violations, sizes, unsubs)
+}
+
 /// Which kind of cycle the history contained (for signatures): the last subscription-ending step kinds seen.
 fn leak_feature(steps: &[Step]) -> String {
 	let mut f: Vec<&str> = Vec::new();
 	for s in steps {
 		let k = match s {
+			Step::SubscribeAbandoned => "abandoned-subscribe-call",
 			Step::Subscribe(_, SubAnswer::Accept) => "accepted-subscribe",
 			Step::Subscribe(_, SubAnswer::Refuse) => "refused-subscribe",
 			Step::Subscribe(_, SubAnswer::MalformedId) => "malformed-subscribe-answer",
@@ -451,7 +550,7 @@ fn gen_spec(seed: u64) -> Spec {
 			3..=6 => Step::Subscribe(r.usize(SLOTS), SubAnswer::Accept),
 			7 => Step::Subscribe(r.usize(SLOTS), SubAnswer::Refuse),
 			8 => Step::Subscribe(r.usize(SLOTS), SubAnswer::MalformedId),
-			9 => Step::Subscribe(r.usize(SLOTS), SubAnswer::DuplicateSubId),
+			9 => if r.bool() { Step::Subscribe(r.usize(SLOTS), SubAnswer::DuplicateSubId) } else { Step::SubscribeAbandoned },
 			10 | 11 => Step::Unsubscribe(r.usize(SLOTS)),
 			12 | 13 => Step::Drop(r.usize(SLOTS)),
 			14 | 15 => Step::ServerClose { slot: r.usize(SLOTS), in_array: r.bool() },
@@ -476,6 +575,7 @@ fn directed_specs(reps: usize) -> Vec<(Spec, String)> {
 		("subscribe-drop-ack", vec![Step::Subscribe(0, SubAnswer::Accept), Step::Drop(0), Step::Ack(0)]),
 		("subscribe-unsubscribe-error-ack", vec![Step::Subscribe(0, SubAnswer::Accept), Step::Unsubscribe(0), Step::AckError(0)]),
 		("subscribe-refused", vec![Step::Subscribe(0, SubAnswer::Refuse)]),
+		("subscribe-abandoned-then-accepted", vec![Step::SubscribeAbandoned, Step::Ack(0)]),
 		("subscribe-malformed-answer", vec![Step::Subscribe(0, SubAnswer::MalformedId)]),
 		("subscribe-server-close", vec![Step::Subscribe(0, SubAnswer::Accept), Step::ServerClose { slot: 0, in_array: false }, Step::Drop(0)]),
 		("subscribe-server-close-in-array", vec![Step::Subscribe(0, SubAnswer::Accept), Step::ServerClose { slot: 0, in_array: true }, Step::Drop(0)]),
@@ -556,7 +656,7 @@ fn main() {
 	let _wd = watchdog("C18", Duration::from_secs(ctx.tier.pick(900, 7200)));
 	let mut ev = Evidence::new(
 		"cases = step histories of 3..14 operations over {call ok/error, batch, subscribe answered accept / refuse / malformed id / \
-		 duplicate subscription id, unsubscribe, drop, server close single or inside an array, lag closure, notification for a live or \
+		 duplicate subscription id, subscribe call abandoned before the accept arrives, unsubscribe, drop, server close single or inside an array, lag closure, notification for a live or \
 		 stale id, register / unregister notification handler, unsubscribe acknowledgement (ok or error object) for the k-th pending \
 		 unsubscribe}, numeric and string request ids; plus directed cycles repeated 1000 times each and every order of 2..4 pending \
 		 acknowledgements. The table-size accessor must read [0,0,0,0] whenever the model says nothing is outstanding and at the end; \
@@ -586,6 +686,25 @@ fn main() {
 		}
 		specs.extend(directed_specs(3));
 		specs.extend(directed_specs(ctx.tier.pick(1000, 5000)).into_iter().filter(|(_, c)| c.starts_with("cycle:")));
+	}
+	if !replay {
+		let n = ctx.tier.pick(200u64, 10_000);
+		let seed = ctx.seed;
+		let res = run_parallel((0..n).collect(), |_, i| {
+			let s = Rng::fork(seed, 88_000_000 + i).next_u64();
+			let cycles = if i % 50 == 0 { 200 } else { 1 + (i % 4) as usize };
+			(s, cycles, block_on_virtual(full_queue_drop_case(s, cycles)))
+		});
+		for (s, cycles, (v, _sizes, unsubs)) in res {
+			ev.eval();
+			ev.count("cases_full_queue_drop", 1);
+			ev.count("full_queue_drop_cycles", cycles as u64);
+			ev.count("full_queue_unsubscribes_written", unsubs as u64);
+			ev.nontrivial(&("full-queue-drop", s));
+			for (sig, d) in v {
+				violations.push(Violation::new(sig, d, json!({"scenario": "drop with a full request queue", "seed": s, "cycles": cycles, "class": "full-queue"})));
+			}
+		}
 	}
 	let results = run_parallel(specs.chunks(64).map(|c| c.to_vec()).collect(), |_, chunk| {
 		let mut ev = Evidence::new("");
